@@ -403,6 +403,10 @@ class SimpleHeatPumpCycle:
 
             if is_hot:
                 self._m_dot = self._Q_cond / abs(profile[0,0] - profile[-1,0])
+                m_dot = self._m_dot
+            else:
+                # mass flow on the profile's own (J/kg) basis, so the set carries Q_evap whatever was built before
+                m_dot = self._Q_evap / abs(profile[0,0] - profile[-1,0])
             sc = StreamCollection()
             for i in range(len(profile) - 1):
                 h1, T1 = profile[i]
@@ -422,7 +426,7 @@ class SimpleHeatPumpCycle:
                     name=name,
                     t_supply=T1,
                     t_target=t_target,
-                    heat_flow=self._m_dot*abs(h1 - h2),  # or m_dot * (h1 - h2), depending on your model
+                    heat_flow=m_dot*abs(h1 - h2),  # or m_dot * (h1 - h2), depending on your model
                     is_process_stream=False,
                     dt_cont=self._dtcont,
                 )
